@@ -120,3 +120,19 @@ def dim_pow(a, k):
 
 def dim_inv(a):
     return tuple(-x for x in a)
+
+
+# units defined by osyris' own configuration: their published values differ between sources
+# at the 1e-4 level (e.g. M_sun 1.9884e33 vs 1.9889e33 g), so quantities expressed in them are
+# compared with relative tolerance 1e-3 instead of 1e-9
+LOOSE = {"solar_mass", "earth_mass", "jupiter_mass", "solar_radius", "earth_radius", "jupiter_radius",
+         "solar_luminosity", "bolometric_luminosity", "radiation_constant"}
+
+
+def tol_for(*units, default=None):
+    for u in units:
+        if u is None:
+            continue
+        if any(sym in LOOSE for sym in decompose(u)):
+            return 1e-3
+    return default
